@@ -139,3 +139,26 @@ def queue_order_scenarios(rich: bool) -> list[dict]:
     # full buffer: 40 callers at once against the 32-slot buffer
     cs = [caller(1, 0.0, "RQ", 1, 0, 0, 20.0, True, ok)]
     return out
+
+
+def repeat_scenarios(rich: bool) -> list[dict]:
+    """A caller that asks for bursts (num_repeats > 1, echo only) followed - or preceded - by ordinary callers whose
+    transmissions are lost: whatever the burst caller asked for must not carry over to anybody else's command."""
+    out = []
+    lost = [{"echo": None, "reply": None}]
+    ok = [{"echo": 0.01, "reply": 0.05}]
+    for mode in (None, True, False):
+        for nr in ((2, 3) if rich else (3,)):
+            for mr in ((0, 1, 2, 3) if rich else (0, 2)):
+                for kind in ("RQ", "I"):
+                    first = caller(1, 0.0, "I", 1, 0, 0, 20.0, False, ok)
+                    first["nr"] = nr
+                    later = caller(2, 2.0, kind, 2, 0, mr, 20.0, None, lost)
+                    out.append({"mode": mode, "callers": [first, later], "events": []})
+                    # the other way round: an ordinary command first, then the burst caller, then an ordinary one again
+                    a = caller(1, 0.0, kind, 1, 0, mr, 20.0, None, lost)
+                    b = caller(2, 9.0, "I", 2, 0, 0, 20.0, False, ok)
+                    b["nr"] = nr
+                    c = caller(3, 11.0, kind, 3, 0, mr, 20.0, None, lost)
+                    out.append({"mode": mode, "callers": [a, b, c], "events": []})
+    return out
